@@ -2,7 +2,8 @@
 
 use crate::prng::Rng;
 
-pub const ZINC_TOKENS: [&str; 46] = [
+pub const ZINC_TOKENS: [&str; 52] = [
+    "+24:00 London", "-99:99 X", "+23:60 UTC", "T25:61:61", "9999-99-99", "Z Zzz",
     "\\uD800", "\\udfff", "\\u0000", "\u{c}", "\u{b}", "\u{1}",
     "[", "]", "{", "}", "<<", ">>", ",", "\n", "\r\n", "\"", "`", ":", "N", "M", "NA", "T", "ver:\"3.0\"", "-", "1e", "\\u12", "\\", "@", "^",
     "C(", ")", "(", "X(\"", "2021-01-01", "T00:00:00", "Z", "+10:00 ", "12:", ".", "_", "INF", "-INF", "NaN", " ", "a", "\u{e9}",
